@@ -25,7 +25,8 @@ EXPLANATION = (
     "choices and the branches/tables that implement them agree, each form maps to the sympy function of that form; "
     "(MP-entrypoint) the presence test on the selected function does not depend on the function's value (no "
     "__bool__/__len__ in QlassF's class hierarchy while `if qlassf:` is used); -e selects by name, its absence selects through find_last_qlassf, which returns the last "
-    "definition; py2qasm compiles with the chosen compiler and exports with the chosen version in circuit mode.  It "
+    "definition; py2qasm compiles with the chosen compiler and exports with the chosen version in circuit mode; "
+    "(MP-output) only the result is written to the destination stream (no fixed message).  It "
     "does NOT decide logical equivalence of sympy's normal forms nor the text format."
 )
 NOT_DECIDED = "logical equivalence of sympy's normal forms; exact output text"
